@@ -46,6 +46,24 @@ pub fn prog(file: S, impls: &S) -> S {
     tagged("prog", vec![file, impls.clone()])
 }
 
+/// the SURFACE program (every file of every package, as parsed and lowered by the repository's own
+/// front end): `STAGE src` = after derive expansion (what the rest of the pipeline is given),
+/// `SRCPLAIN` = before it (`same` when the project uses no derive)
+pub fn dump_src(id: &str, entry: &std::path::Path, src: &str, out: &mut String) {
+    match crate::astdump::project(entry, src) {
+        Ok((plain, expanded)) => {
+            let (pt, et) = (plain.to_text(), expanded.to_text());
+            writeln!(out, "{}\tSTAGE\tsrc\t{}", id, et).unwrap();
+            if pt == et {
+                writeln!(out, "{}\tSRCPLAIN\tsame", id).unwrap();
+            } else {
+                writeln!(out, "{}\tSRCPLAIN\t{}", id, pt).unwrap();
+            }
+        }
+        Err(e) => writeln!(out, "{}\tSRCERR\t{}", id, crate::sexp::esc_line(&e)).unwrap(),
+    }
+}
+
 pub fn dump_case(id: &str, c: &compiler::pipeline::pipeline::Compilation, out: &mut String) {
     let impls = impls_table(&c.genv);
     writeln!(out, "{}\tSTAGE\tcore\t{}", id, prog(dump::core_file(&c.core), &impls).to_text()).unwrap();
@@ -127,6 +145,7 @@ pub fn main(args: &util::Args) {
                     crate::sexp::esc_line(expected.as_deref().unwrap_or(""))
                 )
                 .unwrap();
+                dump_src(&id, &path, &src, &mut out);
                 dump_case(&id, &c, &mut out);
             }
             Outcome::Err(stage, msgs) => {
@@ -150,6 +169,7 @@ pub fn main(args: &util::Args) {
             match util::compile_path(&path, &src) {
                 Outcome::Ok(c) => {
                     writeln!(out, "{}\tEXPECT\t{}\t{}", id, if expected.is_some() { "out" } else { "none" }, crate::sexp::esc_line(expected.as_deref().unwrap_or(""))).unwrap();
+                    dump_src(&id, &path, &src, &mut out);
                     dump_case(&id, &c, &mut out);
                 }
                 Outcome::Err(stage, msgs) => writeln!(out, "{}\tREJECT\t{}\t{}", id, stage, crate::sexp::esc_line(&msgs.join(" | "))).unwrap(),
@@ -176,6 +196,7 @@ pub fn main(args: &util::Args) {
                 Outcome::Ok(c) => {
                     writeln!(out, "{}\tEXPECT\tnone\t", id).unwrap();
                     writeln!(out, "{}\tSRC\t{}", id, crate::sexp::esc_line(&all)).unwrap();
+                    dump_src(&id, &root.join("main.gom"), &main_src, &mut out);
                     dump_case(&id, &c, &mut out);
                 }
                 Outcome::Err(stage, msgs) => writeln!(out, "{}\tREJECT\t{}\t{}\t{}", id, stage, crate::sexp::esc_line(&msgs.join(" | ")), crate::sexp::esc_line(&all)).unwrap(),
@@ -197,6 +218,7 @@ pub fn main(args: &util::Args) {
                 Outcome::Ok(c) => {
                     writeln!(out, "{}\tEXPECT\tnone\t", id).unwrap();
                     writeln!(out, "{}\tSRC\t{}", id, crate::sexp::esc_line(&src)).unwrap();
+                    dump_src(&id, &dir.join("main.gom"), &src, &mut out);
                     dump_case(&id, &c, &mut out);
                 }
                 Outcome::Err(stage, msgs) => writeln!(out, "{}\tREJECT\t{}\t{}\t{}", id, stage, crate::sexp::esc_line(&msgs.join(" | ")), crate::sexp::esc_line(&src)).unwrap(),
@@ -236,6 +258,7 @@ pub fn main(args: &util::Args) {
                 }
                 writeln!(out, "{}\tEXPECT\tnone\t", id).unwrap();
                 writeln!(out, "{}\tSRC\t{}", id, crate::sexp::esc_line(&src)).unwrap();
+                dump_src(&id, &dir.join("main.gom"), &src, &mut out);
                 dump_case(&id, &c, &mut out);
             }
             Outcome::Err(stage, msgs) => {
